@@ -64,7 +64,22 @@ CheckC09u(e) ==
        \cup Tag(e.valErr, "unrepresentable-value-serialised")
        \cup Tag(e.mapErr, "unrepresentable-variable-serialised")
 
+\* c06: the same program under the same seed, before and after unrelated activity on other contexts and on the global
+\* generator; a captured generator state installed in a fresh context; the origin of every die
+SameSeeded(x, y) ==
+  /\ x.err = y.err /\ x.panic = y.panic
+  /\ (Ran(x) => (x.ret = y.ret /\ SameDetail(x.detail, y.detail)))
+  /\ x.seed = y.seed /\ x.rolls = y.rolls
+
+CheckC06(e) ==
+  Tag(SameSeeded(e.a, e.a2), "not-reproducible")
+  \cup Tag(e.a.foreign = 0 /\ e.a2.foreign = 0 /\ e.r1.foreign = 0 /\ e.r2.foreign = 0, "die-from-foreign-generator")
+  \cup Tag(~e.a.globalMoved /\ ~e.a2.globalMoved /\ ~e.r1.globalMoved /\ ~e.r2.globalMoved, "global-generator-used")
+  \cup Tag(SameSeeded(e.r1, e.r2), "not-resumable")
+  \cup Tag(~e.a.panic /\ ~e.r1.panic /\ ~e.r2.panic, "crash")
+
 Check(e) == CASE e.ev = "c03" -> CheckC03(e)
+              [] e.ev = "c06" -> CheckC06(e)
               [] e.ev = "c09" -> CheckC09(e)
               [] e.ev = "c09u" -> CheckC09u(e)
               [] OTHER -> {"unknown-event"}
